@@ -54,6 +54,45 @@ func genStyDoc(rc *RC) []byte {
 	for i := 0; i < n; i++ {
 		b = append(b, pieces[ch.Int("workload", len(pieces))]...)
 	}
+	if ch.Chance("workload", 1, 8) {
+		// a line that nests spans as deep as the grammar allows: two or three of the strong/emphasis/strike spans in a
+		// drawn order, optionally a preformatted span innermost, every one closed in reverse order; sometimes with one
+		// opener twice
+		marks := []string{"*", "_", "~"}
+		p := ch.Perm("workload", 3)
+		k := 2 + ch.Int("workload", 2)
+		var open []string
+		for _, i := range p[:k] {
+			open = append(open, marks[i])
+		}
+		if ch.Chance("workload", 1, 4) {
+			open = append(open, open[ch.Int("workload", len(open))])
+		}
+		if ch.Chance("workload", 2, 3) {
+			open = append(open, "`")
+		}
+		var line []byte
+		for i, m := range open {
+			line = append(line, m...)
+			line = append(line, byte('a'+i))
+			if ch.Chance("workload", 1, 2) && i < len(open)-1 {
+				line = append(line, ' ')
+			}
+		}
+		for i := len(open) - 1; i >= 0; i-- {
+			line = append(line, open[i]...)
+			if i > 0 && ch.Chance("workload", 1, 2) {
+				line = append(line, ' ', byte('p'+i))
+			}
+		}
+		line = append([]byte([]string{"", "> ", ">> ", "\n"}[ch.Int("workload", 4)]), line...)
+		line = append(line, '\n')
+		pos := 0
+		if len(b) > 0 && ch.Chance("workload", 1, 2) {
+			pos = ch.Int("workload", len(b)+1)
+		}
+		b = append(b[:pos:pos], append(line, b[pos:]...)...)
+	}
 	if ch.Chance("workload", 1, 10) {
 		// what editors and some clients put in front of a text: a byte order mark, other invisible characters, or only
 		// the first bytes of one - followed by a construct that only counts at the start of a line
